@@ -115,6 +115,9 @@ def map_lookup(ex, mref, key):
         elif l[0] == "abs":
             kind, mid = l[1], l[2]
             has = ex.h.abs_map_has(ex, kind, mid, key)
+            st = ex.__dict__.setdefault("abs_card", {}).setdefault((kind, str(mid)), {"keys": [], "size": None, "has": []})
+            _card_key(ex, st, kind, mid, key)
+            _card_facts(ex, st)
             lab = ex.choose([("hit", has), ("miss", z3.Not(has))], "map-abs")
             if lab == "hit":
                 return "hit", Ref(Cell(ex.h.abs_map_at(ex, kind, mid, key), ro=True, name=f"{kind}-entry"))
@@ -124,6 +127,25 @@ def map_lookup(ex, mref, key):
             if lab == "hit":
                 return "miss", None
     return "miss", None
+
+
+def _card_key(ex, st, kind, mid, key):
+    if not any(k.t.eq(key.t) for k in st["keys"]):
+        st["keys"].append(key)
+        st["has"].append(ex.h.abs_map_has(ex, kind, mid, key))
+
+
+def _card_facts(ex, st):
+    """Cardinality facts linking the uninterpreted size of an abstract map to the keys in play: a present key needs size >= 1, two
+    distinct present keys size >= 2 (enough for the comparisons of small concrete tables against an arbitrary one)."""
+    sz = st["size"]
+    if sz is None:
+        return
+    ks, hs = st["keys"], st["has"]
+    for i in range(len(ks)):
+        ex.assume(z3.Implies(hs[i], sz >= 1))
+        for j in range(i + 1, len(ks)):
+            ex.assume(z3.Implies(z3.And(hs[i], hs[j], ks[i].t != ks[j].t), sz >= 2))
 
 
 def map_insert(ex, mref, key, val):
@@ -181,6 +203,41 @@ def iter_next(ex, it):
         if x is None:
             return None
         return ex.call_closure(it.extra, [x])
+    if it.kind == "filter":
+        while True:
+            x = iter_next(ex, it.src)
+            if x is None:
+                return None
+            r = ex.call_closure(it.extra, [Ref(Cell(x, name="filter-item"))])
+            if ex.choose([(True, r.t), (False, z3.Not(r.t))], "iter-filter"):
+                return x
+    if it.kind == "enumerate":
+        x = iter_next(ex, it.src)
+        if x is None:
+            return None
+        it.pos += 1
+        return Agg("tuple", None, {0: IntV(it.pos - 1, "usize"), 1: x})
+    if it.kind == "cloned":
+        x = iter_next(ex, it.src)
+        if x is None:
+            return None
+        v = deref_all(ex, x)
+        if isinstance(v, SymVal) or (isinstance(v, Agg) and v.ty == "Value"):
+            return ex.call(None, "<value::Value as std::clone::Clone>::clone", [x])
+        return copy_val(v)
+    if it.kind == "take":
+        if it.pos >= it.extra:
+            return None
+        it.pos += 1
+        return iter_next(ex, it.src)
+    if it.kind == "chain":
+        x = iter_next(ex, it.src)
+        return x if x is not None else iter_next(ex, it.extra)
+    if it.kind == "list":
+        if it.pos >= len(it.src):
+            return None
+        it.pos += 1
+        return it.src[it.pos - 1]
     if it.kind == "once":
         if it.pos:
             return None
@@ -524,6 +581,87 @@ def call(ex, callee, args):
             if not m:
                 raise Unsupported("collect without a turbofish target")
             return collect(ex, it, m.group(1))
+        if meth == "position":
+            model("Iterator::position: index of the first element satisfying the predicate")
+            i = 0
+            while True:
+                x = iter_next(ex, it)
+                if x is None:
+                    return NONE()
+                r = ex.call_closure(args[1], [x])
+                if ex.choose([(True, r.t), (False, z3.Not(r.t))], "iter-position"):
+                    return some(IntV(i, "usize"))
+                i += 1
+        if meth in ("filter", "enumerate", "cloned", "copied", "take", "chain", "skip", "rev", "peekable", "fuse", "by_ref"):
+            model(f"Iterator::{meth} (adaptor)")
+            if meth == "filter":
+                return IterV("filter", it, 0, args[1])
+            if meth == "enumerate":
+                return IterV("enumerate", it, 0)
+            if meth in ("cloned", "copied"):
+                return IterV("cloned", it, 0)
+            if meth == "take":
+                n = ex.concrete_int(args[1])
+                if n is None:
+                    raise Unsupported("take with a symbolic count")
+                return IterV("take", it, 0, n)
+            if meth == "chain":
+                return IterV("chain", it, 0, into_iter(ex, args[1]))
+            if meth in ("fuse", "by_ref"):
+                return it if meth == "fuse" else args[0]
+            if meth in ("skip", "rev"):
+                items = []
+                while True:
+                    x = iter_next(ex, it)
+                    if x is None:
+                        break
+                    items.append(x)
+                if meth == "rev":
+                    items.reverse()
+                else:
+                    n = ex.concrete_int(args[1])
+                    if n is None:
+                        raise Unsupported("skip with a symbolic count")
+                    items = items[n:]
+                return IterV("list", items, 0)
+            return NotImplemented
+        if meth in ("count", "last", "for_each", "fold", "nth"):
+            model(f"Iterator::{meth}: sequential")
+            if meth == "count":
+                n = 0
+                while iter_next(ex, it) is not None:
+                    n += 1
+                return IntV(n, "usize")
+            if meth == "last":
+                last = None
+                while True:
+                    x = iter_next(ex, it)
+                    if x is None:
+                        return NONE() if last is None else some(last)
+                    last = x
+            if meth == "for_each":
+                while True:
+                    x = iter_next(ex, it)
+                    if x is None:
+                        return Agg("tuple")
+                    ex.call_closure(args[1], [x])
+            if meth == "fold":
+                acc = args[1]
+                while True:
+                    x = iter_next(ex, it)
+                    if x is None:
+                        return acc
+                    acc = ex.call_closure(args[2], [acc, x])
+            if meth == "nth":
+                n = ex.concrete_int(args[1])
+                if n is None:
+                    raise Unsupported("nth with a symbolic index")
+                x = None
+                for _ in range(n + 1):
+                    x = iter_next(ex, it)
+                    if x is None:
+                        return NONE()
+                return some(x)
         if meth == "find":
             while True:
                 x = iter_next(ex, it)
@@ -562,7 +700,141 @@ def call(ex, callee, args):
             src.layers = []
             return Agg("tuple")
         if last in ("len", "is_empty"):
-            return NotImplemented
+            model("BTreeMap::len: size of the abstract base (uninterpreted, >= 0) + number of newer bindings whose key is new")
+            m = deref_all(ex, args[0])
+            if not isinstance(m, MapV):
+                raise Unsupported("len of a non-map")
+            total = z3.IntVal(0)
+            for li, l in enumerate(m.layers):
+                if l[0] == "abs":
+                    sz = z3.Function("map_size_" + str(l[1]), z3.IntSort(), z3.IntSort())(l[2] if not isinstance(l[2], int) else z3.IntVal(l[2]))
+                    ex.assume(sz >= 0)
+                    st = ex.__dict__.setdefault("abs_card", {}).setdefault((l[1], str(l[2])), {"keys": [], "size": None, "has": []})
+                    st["size"] = sz
+                    for x in m.layers:
+                        if x[0] == "kv":
+                            _card_key(ex, st, l[1], l[2], x[1])
+                    _card_facts(ex, st)
+                    total = total + sz
+                elif l[0] == "kv":
+                    older = MapV(m.layers[:li], m.vkind)
+                    lab, _ = map_lookup(ex, Ref(Cell(older, name="older-layers")), l[1])
+                    if lab == "miss":
+                        total = total + 1
+                else:
+                    raise Unsupported("len of a map with deletions")
+            total = z3.simplify(total)
+            if last == "is_empty":
+                return BoolV(z3.simplify(total == 0))
+            return IntV(total, "usize")
+        if last == "extend":
+            model("BTreeMap::extend: sequential insert")
+            it = into_iter(ex, args[1])
+            while True:
+                x = iter_next(ex, it)
+                if x is None:
+                    return Agg("tuple")
+                map_insert(ex, args[0], as_str(ex, x.fields[0]), x.fields[1])
+        if last == "remove":
+            model("BTreeMap::remove")
+            lab, r = map_lookup(ex, args[0], as_str(ex, args[1]))
+            m = deref_all(ex, args[0])
+            if isinstance(args[0], Ref) and args[0].cell.ro:
+                raise Panic(f"WRITE-TO-SHARED-STATE: BTreeMap::remove in read-only region {args[0].cell.name}")
+            old = copy_val(ex.read_ref(r)) if lab == "hit" else None
+            m.layers.append(("del", as_str(ex, args[1])))
+            return some(old) if lab == "hit" else NONE()
+    if base in ("std::mem::swap", "core::mem::swap"):
+        model("mem::swap")
+        a, b = ex.read_ref(args[0]), ex.read_ref(args[1])
+        ex.write_ref(args[0], b)
+        ex.write_ref(args[1], a)
+        return Agg("tuple")
+    if base in ("std::mem::replace", "core::mem::replace"):
+        model("mem::replace")
+        old = ex.read_ref(args[0])
+        ex.write_ref(args[0], args[1])
+        return old
+    if base in ("std::mem::take", "core::mem::take"):
+        model("mem::take")
+        old = ex.read_ref(args[0])
+        fresh = MapV([]) if isinstance(old, MapV) else VecV([]) if isinstance(old, VecV) else Str("") if isinstance(old, Str) else None
+        if fresh is None:
+            raise Unsupported(f"mem::take of {old}")
+        ex.write_ref(args[0], fresh)
+        return old
+    if base in ("std::vec::Vec::is_empty",) or re.match(r"core::slice::<impl \[.*\]>::is_empty$", c):
+        v = deref_all(ex, args[0])
+        if isinstance(v, VecV):
+            model("Vec::is_empty")
+            return BoolV(len(v.items) == 0) if v.items is not None else BoolV(vec_len(v.abs) == 0)
+    if base.startswith("std::vec::Vec::") and last in ("append", "swap_remove", "remove", "insert", "pop", "truncate", "clear", "drain", "retain"):
+        if isinstance(args[0], Ref) and args[0].cell.ro:
+            raise Panic(f"WRITE-TO-SHARED-STATE: Vec::{last} in read-only region {args[0].cell.name}")
+        v = deref_all(ex, args[0])
+        if not isinstance(v, VecV) or v.items is None:
+            raise Unsupported(f"Vec::{last} on an abstract Vec")
+        model(f"Vec::{last}")
+        if last == "append":
+            o = deref_all(ex, args[1])
+            v.items.extend(o.items)
+            o.items = []
+            return Agg("tuple")
+        if last == "pop":
+            return some(v.items.pop()) if v.items else NONE()
+        if last == "clear":
+            v.items.clear()
+            return Agg("tuple")
+        if last in ("drain", "retain"):
+            raise Unsupported(f"Vec::{last}")
+        n = ex.concrete_int(args[1])
+        if n is None:
+            raise Unsupported(f"Vec::{last} with a symbolic index")
+        if last == "truncate":
+            del v.items[n:]
+            return Agg("tuple")
+        if last == "insert":
+            if n > len(v.items):
+                raise Panic("Vec::insert index out of bounds")
+            v.items.insert(n, args[2])
+            return Agg("tuple")
+        if n >= len(v.items):
+            raise Panic(f"Vec::{last} index out of bounds")
+        if last == "remove":
+            return v.items.pop(n)
+        x = v.items[n]
+        v.items[n] = v.items[-1]
+        v.items.pop()
+        return x
+    if re.match(r"core::slice::<impl \[.*\]>::(first|last)$", c):
+        v = deref_all(ex, args[0])
+        if isinstance(v, VecV) and v.items is not None:
+            model("slice::first / last")
+            if not v.items:
+                return NONE()
+            i = 0 if c.endswith("first") else len(v.items) - 1
+            return some(Ref(args[0].cell, args[0].path + (("i", i),)))
+    if base == "std::vec::Vec::extend":
+        model("Vec::extend: sequential push")
+        v = deref_all(ex, args[0])
+        it = into_iter(ex, args[1])
+        while True:
+            x = iter_next(ex, it)
+            if x is None:
+                return Agg("tuple")
+            v.items.append(x)
+    if re.match(r"core::str::<impl str>::(contains|starts_with|ends_with|len|is_empty)", c):
+        a = as_str(ex, args[0])
+        meth2 = re.match(r"core::str::<impl str>::(\w+)", c).group(1)
+        model(f"str::{meth2} (z3 string theory)")
+        if meth2 == "len":
+            return IntV(z3.Length(a.t), "usize")          # NOTE: characters, equals the byte length only for ASCII
+        if meth2 == "is_empty":
+            return BoolV(a.t == z3.StringVal(""))
+        b = deref_all(ex, args[1])
+        if isinstance(b, Str):
+            return BoolV({"contains": z3.Contains, "starts_with": lambda x, y: z3.PrefixOf(y, x), "ends_with": lambda x, y: z3.SuffixOf(y, x)}[meth2](a.t, b.t))
+        raise Unsupported(f"str::{meth2} with a non-string pattern")
     # ---- strings
     if base in ("std::string::String::new",):
         return Str("")
@@ -626,8 +898,25 @@ def option_result(ex, base, last, args, full):
         return BoolV(v.variant == good)
     if last in ("is_none", "is_err"):
         return BoolV(v.variant != good)
-    if last == "as_ref":
+    if last in ("as_ref", "as_deref", "as_mut"):
         return v
+    if last == "is_some_and" or last == "is_ok_and":
+        if v.variant != good:
+            return BoolV(False)
+        return ex.call_closure(args[1], [v.fields[0]])
+    if last == "map_or":
+        return args[1] if v.variant != good else ex.call_closure(args[2], [v.fields[0]])
+    if last == "map_or_else":
+        return ex.call_closure(args[1], [] if is_opt else [v.fields[0]]) if v.variant != good else ex.call_closure(args[2], [v.fields[0]])
+    if last == "or":
+        return v if v.variant == good else args[1]
+    if last == "or_else":
+        return v if v.variant == good else ex.call_closure(args[1], [] if is_opt else [v.fields[0]])
+    if last == "filter" and is_opt:
+        if v.variant != "Some":
+            return v
+        r = ex.call_closure(args[1], [Ref(Cell(v.fields[0], name="opt-item"))])
+        return v if ex.choose([(True, r.t), (False, z3.Not(r.t))], "opt-filter") else NONE()
     return NotImplemented
 
 
